@@ -206,5 +206,3 @@ Proof.
   all: match goal with |- readonly (match ?x with _ => _ end) => destruct x as [[[?|] ?]|]; ro end.
 Qed.
 
-Print Assumptions structural_blocked.
-Print Assumptions reads_do_not_change_state.
